@@ -239,6 +239,11 @@ struct Cfg {
     k: usize,
     w: usize,
     clip_stride: usize, // 1 = all 256 clip quadruples
+    /// 0: every pair of strings of length 1..=maxlen over `alpha`;
+    /// 1: "long-binary" — every pair of binary strings of length maxlen-1..=maxlen;
+    /// 2: "blocks" — two 3-/4-mer anchors with varying junk before, between and after them
+    #[serde(default)]
+    family: u8,
 }
 
 fn cfgs(tier: Tier) -> Vec<Cfg> {
@@ -252,7 +257,7 @@ fn cfgs(tier: Tier) -> Vec<Cfg> {
         for &(go, ge) in &gaps {
             for k in 1..=kmax {
                 for w in 0..=wmax {
-                    v.push(Cfg { alpha: "ab".into(), maxlen, subst_kind: kind, gap_open: go, gap_extend: ge, k, w, clip_stride: 1 });
+                    v.push(Cfg { alpha: "ab".into(), maxlen, subst_kind: kind, gap_open: go, gap_extend: ge, k, w, clip_stride: 1, family: 0 });
                 }
             }
         }
@@ -261,9 +266,136 @@ fn cfgs(tier: Tier) -> Vec<Cfg> {
     for go in [0, -2] {
         for k in 1..=2 {
             for w in 0..=1 {
-                v.push(Cfg { alpha: "abc".into(), maxlen: tier.pick(2, 3), subst_kind: 1, gap_open: go, gap_extend: -1, k, w, clip_stride: tier.pick(3, 1) });
+                v.push(Cfg { alpha: "abc".into(), maxlen: tier.pick(2, 3), subst_kind: 1, gap_open: go, gap_extend: -1, k, w, clip_stride: tier.pick(3, 1), family: 0 });
             }
         }
+    }
+    v
+}
+
+/// Configurations of the two families of longer inputs (appended after the short sweeps and the
+/// empty/budget units so that existing unit indices keep their meaning).
+fn long_cfgs(tier: Tier) -> Vec<Cfg> {
+    let mut v = vec![];
+    let schemes: Vec<(u8, i32, i32)> = tier.pick(vec![(0, -2, -1), (1, 0, -1)], vec![(0, -2, -1), (1, 0, -1), (3, -3, 0), (0, 0, 0)]);
+    for &(kind, go, ge) in &schemes {
+        // long-binary: dense k-mer matches, bands with many overlapping diagonals
+        for (k, w) in tier.pick(vec![(2, 0), (3, 0), (3, 1), (4, 1)], vec![(2, 0), (2, 1), (3, 0), (3, 1), (3, 2), (4, 0), (4, 1), (5, 1)]) {
+            v.push(Cfg { alpha: "ab".into(), maxlen: tier.pick(5, 6), subst_kind: kind, gap_open: go, gap_extend: ge, k, w, clip_stride: 0, family: 1 });
+        }
+        // blocks: sparse matches, bands that start/end inside the matrix, gaps between anchors
+        for (k, w) in tier.pick(vec![(2, 0), (3, 0), (3, 1), (3, 2)], vec![(2, 0), (2, 1), (3, 0), (3, 1), (3, 2), (3, 3), (4, 0), (4, 2)]) {
+            v.push(Cfg { alpha: "acgt".into(), maxlen: tier.pick(3, 4), subst_kind: kind, gap_open: go, gap_extend: ge, k, w, clip_stride: 0, family: 2 });
+        }
+    }
+    v
+}
+
+/// clip quadruple indices used by the long families: {MIN_SCORE,0}^4 and eight mixed settings
+fn long_clip_idxs() -> Vec<usize> {
+    let mut v = vec![];
+    for a in 0..2 {
+        for b in 0..2 {
+            for c in 0..2 {
+                for d in 0..2 {
+                    v.push(64 * a + 16 * b + 4 * c + d);
+                }
+            }
+        }
+    }
+    v.extend([147, 201, 108, 54, 165, 90, 215, 125]);
+    v
+}
+
+fn cat(parts: &[&[u8]]) -> Vec<u8> {
+    parts.iter().flat_map(|p| p.iter().cloned()).collect()
+}
+
+/// input pairs of a configuration
+fn pairs_of(cfg: &Cfg) -> Vec<(Vec<u8>, Vec<u8>)> {
+    match cfg.family {
+        1 => {
+            let strs = gen::strings(b"ab", cfg.maxlen - 1, cfg.maxlen);
+            let mut v = vec![];
+            for x in &strs {
+                for y in &strs {
+                    v.push((x.clone(), y.clone()));
+                }
+            }
+            v
+        }
+        2 => {
+            // x = px P mx Q sx ; y built from the same anchors in four arrangements with its own junk
+            let (p, q): (&[u8], &[u8]) = (b"acgt", b"tgca");
+            // cfg.maxlen = number of junk variants (3 quick, 4 thorough); kept in the configuration
+            // so that a replay rebuilds the same family
+            let xj: Vec<&[u8]> = [b"" as &[u8], b"g", b"cc", b"tat"][..cfg.maxlen.min(4)].to_vec();
+            let yj: Vec<&[u8]> = [b"" as &[u8], b"a", b"tt", b"cgc"][..cfg.maxlen.min(4)].to_vec();
+            let mut xs: Vec<Vec<u8>> = vec![];
+            for px in &xj {
+                for mx in &xj {
+                    for sx in &xj {
+                        xs.push(cat(&[px, p, mx, q, sx]));
+                    }
+                }
+            }
+            let mut ys: Vec<Vec<u8>> = vec![];
+            for py in &yj {
+                for my in &yj {
+                    for sy in &yj {
+                        ys.push(cat(&[py, p, my, q, sy])); // both anchors, same order
+                        ys.push(cat(&[py, q, my, p, sy])); // both anchors, swapped (not chainable)
+                    }
+                    ys.push(cat(&[py, p, my])); // first anchor only: band ends inside the matrix
+                    ys.push(cat(&[py, q, my])); // second anchor only: band starts inside the matrix
+                    ys.push(cat(&[py, &p[..3], my, &q[1..]])); // truncated anchors
+                }
+            }
+            ys.sort();
+            ys.dedup();
+            let mut v = vec![];
+            for x in &xs {
+                for y in &ys {
+                    v.push((x.clone(), y.clone()));
+                }
+            }
+            v
+        }
+        _ => {
+            let strs = gen::strings(cfg.alpha.as_bytes(), 1, cfg.maxlen); // non-empty; empties: forked units
+            let mut v = vec![];
+            for x in &strs {
+                for y in &strs {
+                    v.push((x.clone(), y.clone()));
+                }
+            }
+            v
+        }
+    }
+}
+
+fn clip_idxs_of(cfg: &Cfg) -> Vec<usize> {
+    if cfg.family == 0 {
+        (0..256).step_by(cfg.clip_stride).collect()
+    } else {
+        long_clip_idxs()
+    }
+}
+
+/// entry points of the long families: the four backbone routes on every clip setting, the
+/// explicit-list routes and the standard modes on the all-forbidden and all-free settings
+fn long_entries_for(matches: &[(u32, u32)], k: usize, clip_idx: usize, tier: Tier) -> Vec<Entry> {
+    let mut v = vec![Entry::Custom, Entry::Prehash, Entry::Expanded(None, false), Entry::Expanded(Some(1), true)];
+    if clip_idx == 0 || clip_idx == 85 || clip_idx == 147 {
+        v.push(Entry::Expanded(Some(0), true));
+        v.push(Entry::Expanded(None, true));
+        for s in match_subsets(matches, tier) {
+            v.push(Entry::Matches(s));
+        }
+        for p in match_paths(matches, k, tier) {
+            v.push(Entry::MatchPath(p));
+        }
+        v.extend([Entry::Global, Entry::Semiglobal, Entry::SemiglobalPrehash, Entry::Local]);
     }
     v
 }
@@ -319,19 +451,21 @@ fn check_banded(
 fn sweep(cfg: &Cfg, cfg_idx: usize, tier: Tier, ctx: &mut Ctx, only_until: Option<usize>) {
     let base = base_scheme(cfg);
     let (k, w) = (cfg.k, cfg.w);
-    let strs = gen::strings(cfg.alpha.as_bytes(), 1, cfg.maxlen); // non-empty; empties: forked units
+    let pairs = pairs_of(cfg);
+    let clip_idxs = clip_idxs_of(cfg);
     let mut aligner = new_aligner(&base, k, w, cfg_idx);
     let mut call_no = 0usize;
-    for x in &strs {
-        for y in &strs {
+    {
+        for (x, y) in &pairs {
             let table = RangeTable::new(x, y, &base.subst, base.gap_open, base.gap_extend);
             let matches = true_matches(x, y, k);
-            for ci in (0..256).step_by(cfg.clip_stride) {
+            for &ci in &clip_idxs {
                 let clips = clip_quadruple(ci);
                 let scheme = base.with_clips(clips);
                 set_clips(&mut aligner, clips);
                 let mut first_custom: Option<Alignment> = None;
-                for e in entries_for(&matches, k, ci, tier) {
+                let entries = if cfg.family == 0 { entries_for(&matches, k, ci, tier) } else { long_entries_for(&matches, k, ci, tier) };
+                for e in entries {
                     call_no += 1;
                     if let Some(lim) = only_until {
                         if call_no > lim {
@@ -638,6 +772,86 @@ fn budget_unit(ctx: &mut Ctx, which: usize) {
     }
 }
 
+// ------------------------------------------------------------------ Aligner::new / with_capacity
+
+const N_CTOR_UNITS: usize = 4;
+
+/// banded::Aligner::new(open, extend, fn, k, w) and ::with_capacity(m, n, ..) (every clip forbidden)
+/// are checked with the same oracle as every other route, on every entry point
+fn ctor_case(which: u8, scheme: &Scheme, k: usize, w: usize, e: &Entry, x: &[u8], y: &[u8], cc: &mut CaseCtx) {
+    let table = RangeTable::new(x, y, &scheme.subst, scheme.gap_open, scheme.gap_extend);
+    let matches = true_matches(x, y, k);
+    let sub = scheme.subst;
+    let f = move |a: u8, b: u8| sub.score(a, b);
+    let (go, ge) = (scheme.gap_open, scheme.gap_extend);
+    let name = if which == 0 { "Aligner::new" } else { "Aligner::with_capacity" };
+    let got = guard(|| {
+        let mut a = if which == 0 { banded::Aligner::new(go, ge, f, k, w) } else { banded::Aligner::with_capacity(x.len() + 1, y.len() / 2, go, ge, f, k, w) };
+        call_entry(&mut a, e, x, y, k, &matches)
+    });
+    match got {
+        Err(msg) => cc.violation(format!("C02/constructor/{}/panic", name), msg),
+        Ok(al) => {
+            let mode = e.mode();
+            let opt = table.optimum(mode.clips().unwrap_or(scheme.clips()));
+            match check_alignment(&al, x, y, scheme, mode, opt, full_band(e, &matches), true, cc) {
+                // (no comparison with the with_scoring route: a Scoring built by Scoring::new has
+                // match_scores = None, which legitimately changes the band heuristics, so two sound
+                // answers may differ — seen on x=aaa y=abba k=1 w=0)
+                Ok(()) => {}
+                Err((symptom, detail)) => {
+                    let key = if symptom.starts_with("ins-run-split-at-yclip") || symptom.starts_with("del-run-split-at-xclip") || symptom.starts_with("zero-length-clip-in-path") {
+                        format!("C02/{}", symptom)
+                    } else {
+                        format!("C02/constructor/{}/{}", name, symptom)
+                    };
+                    cc.violation(key, detail);
+                }
+            }
+        }
+    }
+}
+
+fn ctor_unit(tier: Tier, shard: usize, ctx: &mut Ctx) {
+    let strs = gen::strings(b"ab", 1, tier.pick(3, 4));
+    let entries = [Entry::Custom, Entry::Prehash, Entry::Expanded(Some(1), true), Entry::Global, Entry::Semiglobal, Entry::SemiglobalPrehash, Entry::Local];
+    let mut idx = 0usize;
+    for kind in [0u8, 1, 3] {
+        for (go, ge) in [(0, -1), (-2, -1), (-3, 0)] {
+            for (k, w) in [(1usize, 0usize), (2, 1), (3, 2)] {
+                idx += 1;
+                if idx % N_CTOR_UNITS != shard {
+                    continue;
+                }
+                let scheme = Scheme {
+                    subst: Subst { kind, emb: [b'a', b'b', b'c'] },
+                    gap_open: go,
+                    gap_extend: ge,
+                    xclip_prefix: MIN_SCORE,
+                    xclip_suffix: MIN_SCORE,
+                    yclip_prefix: MIN_SCORE,
+                    yclip_suffix: MIN_SCORE,
+                };
+                for x in &strs {
+                    for y in &strs {
+                        for which in 0..2u8 {
+                            for e in &entries {
+                                ctx.case(
+                                    || json!({"kind": "constructor", "which": which, "scheme": scheme, "k": k, "w": w, "entry": e, "x": show(x), "y": show(y)}),
+                                    |cc| ctor_case(which, &scheme, k, w, e, x, y, cc),
+                                );
+                            }
+                        }
+                    }
+                    if ctx.res.capped {
+                        return;
+                    }
+                }
+            }
+        }
+    }
+}
+
 // ------------------------------------------------------------------ Prop
 
 impl Prop for C02Prop {
@@ -648,7 +862,7 @@ impl Prop for C02Prop {
         "exploration"
     }
     fn rule(&self) -> &'static str {
-        "Complete sweep: every pair of non-empty sequences up to the length bound x scoring grid (substitution x gap_open x gap_extend x 4^4 clip penalties set through get_mut_scoring on one reused aligner per (scheme,k,w)) x (k,w) grid x entry points (custom on all 256 clip schemes; prehash and expanded matches with allowed_mismatches in {None,0,1} x union flag on every 3rd (quick) / 2nd (thorough); on every 9th clip scheme every subset of the true k-mer match list and every valid chain of <=3 matches + the LCSk++ path; on every 37th the four standard-mode entry points followed by custom again). Inputs with an empty sequence: separate units, each call in a forked child under an address-space cap and a 10 s limit. Seven inputs just below, exactly at and just above the 5,000,000-cell budget per mode. Each call is enumerated once. Non-trivial: both sequences non-empty and the returned alignment has a gap or a clipped end (forked and budget cases: all)."
+        "Complete sweep: every pair of non-empty sequences up to the length bound x scoring grid (substitution x gap_open x gap_extend x 4^4 clip penalties set through get_mut_scoring on one reused aligner per (scheme,k,w)) x (k,w) grid x entry points (custom on all 256 clip schemes; prehash and expanded matches with allowed_mismatches in {None,0,1} x union flag on every 3rd (quick) / 2nd (thorough); on every 9th clip scheme every subset of the true k-mer match list and every valid chain of <=3 matches + the LCSk++ path; on every 37th the four standard-mode entry points followed by custom again). Inputs with an empty sequence: separate units, each call in a forked child under an address-space cap and a 10 s limit. Seven inputs just below, exactly at and just above the 5,000,000-cell budget per mode. Longer inputs (appended units): 'long-binary' = every pair of binary strings of length 4..5 (quick) / 5..6 (thorough); 'blocks' = x = junk+acgt+junk+tgca+junk against y built from the same two anchors in five arrangements (same order, swapped, first only, second only, truncated) with its own junk, 3 (quick) / 4 (thorough) junk strings per slot; both on 24 clip settings ({MIN_SCORE,0}^4 + 8 mixed) x 4/8 (k,w) x 2/4 scoring schemes, entry points custom, prehash, expanded(None,false), expanded(Some(1),true) everywhere and every other entry point on three clip settings, one reused aligner per unit. Constructor units: banded::Aligner::new and ::with_capacity on 27 (scheme,k,w) x every pair over {a,b}^<=3/4 x 7 entry points, same oracle. Each call is enumerated once. Non-trivial: both sequences non-empty and the returned alignment has a gap or a clipped end (forked and budget cases: all)."
     }
     fn assumptions(&self) -> Vec<&'static str> {
         vec![
@@ -665,6 +879,9 @@ impl Prop for C02Prop {
             "substitution": "(+1,-1) (+2,-3) asymmetric table", "gaps(open,extend)": tier.pick("(0,-1) (-2,-1) (-2,0)", "(0,0) (0,-1) (-2,0) (-2,-1) (-3,0) (-3,-1)"),
             "clip_penalties": "{MIN_SCORE,0,-1,-4}^4", "match_subsets": tier.pick("all subsets when <=4 matches, else 7-shape family", "all subsets when <=6 matches, else 7-shape family"),
             "empty_inputs": tier.pick("('',''), ('',s), (s,'') for s in {a,b}^{1..2}; 24 clip settings ({MIN,0}^4 + one -1); k=1,w=0; 6 entry points", "s in {a,b}^{1..3}; 81 clip settings; 3 schemes; (k,w) in {(1,0),(2,1)}; 6 entry points"),
+            "long_binary_len": tier.pick("4..=5", "5..=6"), "blocks": tier.pick("27 x-strings x 39 y-strings (len 8..14)", "64 x 84 (len 8..17)"), "long_clip_settings": 24,
+            "long_kw": tier.pick("binary (2,0) (3,0) (3,1) (4,1); blocks (2,0) (3,0) (3,1) (3,2)", "binary (2,0) (2,1) (3,0) (3,1) (3,2) (4,0) (4,1) (5,1); blocks (2,0) (2,1) (3,0) (3,1) (3,2) (3,3) (4,0) (4,2)"),
+            "constructors": "banded::Aligner::new, ::with_capacity on 3 substitution x 3 gap x 3 (k,w) schemes",
             "budget": "(|x|,|y|) in {(2235,2235) 4,999,696; (1999,2499),(2499,1999),(1,2499999) exactly 5,000,000; (2,1666666) 5,000,001; (2236,2236); (4999,1000)} x {custom, global, semiglobal, local}",
         })
     }
@@ -680,6 +897,12 @@ impl Prop for C02Prop {
         for i in 0..4 {
             v.push(format!("budget-{}", i));
         }
+        for (i, c) in long_cfgs(tier).iter().enumerate() {
+            v.push(format!("long-{}-{}-s{}-o{}-e{}-k{}-w{}", i, if c.family == 1 { "binary" } else { "blocks" }, c.subst_kind, c.gap_open, c.gap_extend, c.k, c.w));
+        }
+        for i in 0..N_CTOR_UNITS {
+            v.push(format!("constructors-{}", i));
+        }
         v
     }
     fn run_unit(&self, tier: Tier, unit: usize, ctx: &mut Ctx) {
@@ -688,8 +911,15 @@ impl Prop for C02Prop {
             sweep(&c[unit], unit, tier, ctx, None);
         } else if unit < c.len() + EMPTY_SHARDS {
             empty_unit(tier, unit - c.len(), ctx);
-        } else {
+        } else if unit < c.len() + EMPTY_SHARDS + 4 {
             budget_unit(ctx, unit - c.len() - EMPTY_SHARDS);
+        } else if unit < c.len() + EMPTY_SHARDS + 4 + long_cfgs(tier).len() {
+            let l = long_cfgs(tier);
+            let i = unit - c.len() - EMPTY_SHARDS - 4;
+            // cfg_idx (constructor choice, replay) continues after the short sweeps
+            sweep(&l[i], c.len() + i, tier, ctx, None);
+        } else {
+            ctor_unit(tier, unit - c.len() - EMPTY_SHARDS - 4 - long_cfgs(tier).len(), ctx);
         }
     }
     fn replay(&self, case: &Value, ctx: &mut Ctx) {
@@ -731,8 +961,21 @@ impl Prop for C02Prop {
                 let calls = case["calls"].as_u64().unwrap() as usize;
                 // the tier only influences the subset/chain families; replay with the tier that
                 // produced the case (encoded in the maxlen bound of the binary sweeps)
-                let tier = if cfg.maxlen >= 4 || (cfg.alpha == "abc" && cfg.maxlen >= 3) { Tier::Thorough } else { Tier::Quick };
+                let tier = match cfg.family {
+                    1 => if cfg.maxlen >= 6 { Tier::Thorough } else { Tier::Quick },
+                    2 => if cfg.maxlen >= 4 { Tier::Thorough } else { Tier::Quick },
+                    _ => if cfg.maxlen >= 4 || (cfg.alpha == "abc" && cfg.maxlen >= 3) { Tier::Thorough } else { Tier::Quick },
+                };
                 sweep(&cfg, cfg_idx, tier, ctx, Some(calls));
+            }
+            "constructor" => {
+                let scheme: Scheme = serde_json::from_value(case["scheme"].clone()).unwrap();
+                let e: Entry = serde_json::from_value(case["entry"].clone()).unwrap();
+                let k = case["k"].as_u64().unwrap() as usize;
+                let w = case["w"].as_u64().unwrap() as usize;
+                let which = case["which"].as_u64().unwrap() as u8;
+                let (x, y) = (unshow(case["x"].as_str().unwrap()), unshow(case["y"].as_str().unwrap()));
+                ctx.case(|| case.clone(), |cc| ctor_case(which, &scheme, k, w, &e, &x, &y, cc));
             }
             "budget" => {
                 let n = case["n"].as_u64().unwrap() as usize;
